@@ -196,13 +196,20 @@ def check(run):
     # Closed check on the float object (exact rational arithmetic on the doubles, tolerance 2^-40): a configuration that reshapes the table must keep rows and orders together.
     try:
         from renormalizer.utils.configs import EvolveConfig, EvolveMethod
+        # every configuration is built FIRST and checked afterwards: the tables of objects that live side by side are independent of each other
+        built = {}
+        for m in method_list:
+            for adaptive in (False, True):
+                try:
+                    built[(m, adaptive)] = EvolveConfig(EvolveMethod.prop_and_compress_tdrk, adaptive=adaptive, rk_solver=m)
+                except Exception as e:
+                    built[(m, adaptive)] = e
         for m in method_list:
             for adaptive in (False, True):
                 oid = f"link:EvolveConfig:delivered_tableau_has_its_advertised_order:{m}:adaptive={adaptive}"
-                try:
-                    cfg = EvolveConfig(EvolveMethod.prop_and_compress_tdrk, adaptive=adaptive, rk_solver=m)
-                except Exception as e:
-                    run.oblig(oid, "EvolveConfig.__init__", "B(bounded)", "discharged", "closed check", detail=f"combination rejected: {type(e).__name__}")
+                cfg = built[(m, adaptive)]
+                if isinstance(cfg, Exception):
+                    run.oblig(oid, "EvolveConfig.__init__", "B(bounded)", "discharged", "closed check", detail=f"combination rejected: {type(cfg).__name__}")
                     continue
                 rk = cfg.rk_config
                 fa, fb, fc = rk.tableau
